@@ -290,3 +290,101 @@ pub fn planted_spec(
         .prop_map(|(host, plants)| PlantedSpec { host, plants })
         .boxed()
 }
+
+/// Two adjacent hub spiders with many private neighbours each ("double star"): reaches the
+/// high-degree regime (exponents of sqrt2 beyond 64 bits) with a diagram of small treewidth.
+#[derive(Clone, Debug, PartialEq, Serialize, Deserialize)]
+pub struct StarSpec {
+    pub a: usize,
+    pub b: usize,
+    pub shared: usize,
+    pub p0: (i64, i64),
+    pub p1: (i64, i64),
+    pub leaf_phases: Vec<(i64, i64)>,
+    /// boundaries: 0 none, 1 output on the first leaf of each hub, 2 also an input on hub 0
+    pub bnds: u8,
+    /// add a degree-1 leaf (gadget phase) to some of the private neighbours
+    pub extra_leaves: Vec<u16>,
+}
+
+impl StarSpec {
+    pub fn to_diag(&self) -> Diag {
+        let mut d = Diag::empty();
+        let h0 = d.add_vert(VK::Z, norm_phase(self.p0));
+        let h1 = d.add_vert(VK::Z, norm_phase(self.p1));
+        d.add_edge(h0, h1, true);
+        let mut k = 0usize;
+        let mut next_phase = |k: &mut usize| {
+            let p = self.leaf_phases.get(*k % self.leaf_phases.len().max(1)).copied().unwrap_or((1, 4));
+            *k += 1;
+            norm_phase(p)
+        };
+        let mut privs = vec![];
+        for _ in 0..self.a.min(20) {
+            let v = d.add_vert(VK::Z, next_phase(&mut k));
+            d.add_edge(h0, v, true);
+            privs.push(v);
+        }
+        let first_b = d.verts.len();
+        for _ in 0..self.b.min(20) {
+            let v = d.add_vert(VK::Z, next_phase(&mut k));
+            d.add_edge(h1, v, true);
+            privs.push(v);
+        }
+        for _ in 0..self.shared.min(2) {
+            let v = d.add_vert(VK::Z, next_phase(&mut k));
+            d.add_edge(h0, v, true);
+            d.add_edge(h1, v, true);
+        }
+        for raw in &self.extra_leaves {
+            if privs.is_empty() {
+                break;
+            }
+            let v = privs[idx(*raw, privs.len())];
+            let l = d.add_vert(VK::Z, next_phase(&mut k));
+            d.add_edge(v, l, true);
+        }
+        if self.bnds >= 1 {
+            if self.a > 0 {
+                let b = d.add_vert(VK::B, (0, 1));
+                d.add_edge(2, b, false);
+                d.outputs.push(b);
+            }
+            if self.b > 0 {
+                let b = d.add_vert(VK::B, (0, 1));
+                d.add_edge(first_b, b, false);
+                d.outputs.push(b);
+            }
+        }
+        if self.bnds >= 2 {
+            let b = d.add_vert(VK::B, (0, 1));
+            d.add_edge(h0, b, false);
+            d.inputs.push(b);
+        }
+        d
+    }
+}
+
+pub fn star_spec(max_leaves: usize) -> BoxedStrategy<StarSpec> {
+    (
+        prop_oneof![1 => 0usize..=6, 3 => 8usize..=max_leaves],
+        prop_oneof![1 => 0usize..=6, 3 => 8usize..=max_leaves],
+        0usize..=2,
+        prop_oneof![3 => pauli(), 1 => phase_strategy(Palette::ExactT)],
+        prop_oneof![3 => pauli(), 1 => phase_strategy(Palette::ExactT)],
+        prop::collection::vec(phase_strategy(Palette::ExactT), 1..=6),
+        0u8..3,
+        prop::collection::vec(any::<u16>(), 0..=3),
+    )
+        .prop_map(|(a, b, shared, p0, p1, leaf_phases, bnds, extra_leaves)| StarSpec {
+            a,
+            b,
+            shared,
+            p0,
+            p1,
+            leaf_phases,
+            bnds,
+            extra_leaves,
+        })
+        .boxed()
+}
